@@ -23,9 +23,10 @@ def read_run(prefix, label):
     argv = open(prefix + ".argv").read().strip()
     fds = open(prefix + ".fds").read().split("\n")
     events = []
-    if not os.path.exists(prefix + ".strace"):
+    traced = not os.environ.get("CLANGTEE_NOSTRACE")
+    if traced and not os.path.exists(prefix + ".strace"):
         raise vlib.InfraError("strace did not write %s.strace (is ptrace permitted here?)" % prefix)
-    for line in open(prefix + ".strace", errors="replace"):
+    for line in (open(prefix + ".strace", errors="replace") if traced else ()):
         if "unfinished" in line or "resumed" in line:
             raise vlib.InfraError("interleaved system calls in %s.strace: %s" % (prefix, line.strip()))
         m = W.match(line)
@@ -35,7 +36,7 @@ def read_run(prefix, label):
         if fd in (1, 2) and n > 0:
             events.append({"e": "W", "fd": fd, "n": n})
     return {"label": label, "argv": argv, "carets": "-fno-caret-diagnostics" not in argv.split(),
-            "merged": len(fds) >= 2 and fds[0] == fds[1] and fds[0] != "", "events": events}
+            "merged": len(fds) >= 2 and fds[0] == fds[1] and fds[0] != "", "events": events, "traced": traced}
 
 
 def _rows(runs):
@@ -89,6 +90,7 @@ def _chunks(runs):
 def validate(runs):
     """-> (bad, stats); bad: [{"label", "key", "what"}] (at most a few: the first offending runs), stats: events / states."""
     import concurrent.futures
+    runs = [r for r in runs if r.get("traced", True)]
     stats = {"stream_runs": len(runs), "stream_events": 0, "stream_states": 0, "stream_tlc_starts": 0,
              "stream_runs_merged": sum(1 for r in runs if r["merged"]),
              "stream_runs_with_fd2_writes": sum(1 for r in runs if any(e["fd"] == 2 for e in r["events"])),
@@ -128,6 +130,35 @@ def validate(runs):
                                     % (run["argv"], mode)})
         if len(bad) == found and len(bad) < 3:
             raise vlib.InfraError("ClangStreamTrace: a concatenated log is %s but every run of it alone is accepted" % verdict)
+    return bad, stats
+
+
+def configs(runs):
+    """Every way cppcheck was seen to start clang (carets shown?, fd 2 merged?) must be one for which the design keeps the dump
+    intact for all buffer sizes and dump lengths of the small model (TLC, exhaustive).  Needs argv and descriptors only.
+    -> (bad, {config: distinct states})"""
+    seen = {}
+    for r in runs:
+        seen.setdefault((r["carets"], r["merged"]), r)
+    bad, stats = [], {}
+    for (carets, merged), r in sorted(seen.items()):
+        work = vlib.mktmp("clangcfg")
+        cfg = os.path.join(work, "ClangStreamCfg.cfg")
+        b = lambda x: "TRUE" if x else "FALSE"  # noqa: E731
+        with open(cfg, "w") as f:
+            f.write("SPECIFICATION Spec\nCONSTANTS\n  CaretsSet = {%s}\n  MergedSet = {%s}\n  BufSet = {1, 2, 3, 4}\n  MaxDump = 9\n"
+                    "  MaxDiag = 3\n  MaxSum = 2\nINVARIANT TypeOK\nINVARIANT Intact\nINVARIANT Delivered\nCHECK_DEADLOCK FALSE\n" % (b(carets), b(merged)))
+        t = vlib.tlc("ClangStream", cfg, workers=1, timeout=600, xmx="2g")
+        shutil.rmtree(work, ignore_errors=True)
+        name = "carets=%s,merged=%s" % (b(carets), b(merged))
+        if t.error:
+            raise vlib.InfraError("ClangStream.tla for %s: rc=%s\n%s" % (name, t.rc, t.out[-2000:]))
+        stats[name] = t.distinct
+        if t.violation:
+            bad.append({"label": r["label"], "key": "stream:command-admits-interleaving:%s" % name,
+                        "what": "cppcheck starts clang as `%s` with fd 2 %s: for this configuration ClangStream.tla has behaviours that violate %s "
+                                "(clang's summary line lands inside the AST dump the importer reads)"
+                                % (r["argv"], "merged into the pipe (2>&1)" if merged else "in a file of its own", t.violated_name())})
     return bad, stats
 
 
